@@ -463,6 +463,8 @@ class RdmsOps:
             keys += [k for k in ob.descriptors if k not in keys]
         exp = {}
         for k in keys:
+            if any(k in ob.descriptors and k in ob.rdm_descriptors for ob in objs):
+                continue        # the same name at both levels of one operand (permute after a demoting concat): not judged
             vals = []
             for ob in objs:
                 for i in range(ob.n_rdm):
